@@ -46,7 +46,7 @@ def toI64 (x : Nat) : Int :=
 inductive TV where
   | scalar (t : Tok)                                    -- body must be a scalar body
   | arr (tag : Option Int) (len : Int) (items : List TV)
-  | map (tag : Option Int) (len : Int) (entries : List (Tok × TV))
+  | map (tag : Option Int) (len : Int) (entries : List (TV × TV))
 
 def Body.isScalar : Body → Bool
   | .mapOpen _ | .mapClose | .arrOpen _ | .arrClose => false
@@ -60,9 +60,63 @@ mutual
   def TV.flattenList : List TV → List Tok
     | [] => []
     | v :: vs => TV.flatten v ++ TV.flattenList vs
-  def TV.flattenEntries : List (Tok × TV) → List Tok
+  def TV.flattenEntries : List (TV × TV) → List Tok
     | [] => []
-    | (k, v) :: es => k :: (TV.flatten v ++ TV.flattenEntries es)
+    | (k, v) :: es => TV.flatten k ++ (TV.flatten v ++ TV.flattenEntries es)
+end
+
+mutual
+  /-- Inverse of `flatten`: read one token tree from the front of a token list. -/
+  def TV.unflatten : Nat → List Tok → Option (TV × List Tok)
+    | 0, _ => none
+    | _, [] => none
+    | fuel+1, t :: ts =>
+      match t.body with
+      | .arrOpen len => (TV.unflattenList fuel ts).map fun (vs, r) => (.arr t.tag len vs, r)
+      | .mapOpen len => (TV.unflattenEntries fuel ts).map fun (es, r) => (.map t.tag len es, r)
+      | .arrClose => none
+      | .mapClose => none
+      | _ => some (.scalar t, ts)
+  def TV.unflattenList : Nat → List Tok → Option (List TV × List Tok)
+    | 0, _ => none
+    | _, [] => none
+    | fuel+1, t :: ts =>
+      match t.body with
+      | .arrClose => some ([], ts)
+      | _ => match TV.unflatten fuel (t :: ts) with
+        | none => none
+        | some (v, r) => (TV.unflattenList fuel r).map fun (vs, r') => (v :: vs, r')
+  def TV.unflattenEntries : Nat → List Tok → Option (List (TV × TV) × List Tok)
+    | 0, _ => none
+    | _, [] => none
+    | fuel+1, t :: ts =>
+      match t.body with
+      | .mapClose => some ([], ts)
+      | _ => match TV.unflatten fuel (t :: ts) with
+        | none => none
+        | some (k, r) => match TV.unflatten fuel r with
+          | none => none
+          | some (v, r') => (TV.unflattenEntries fuel r').map fun (es, r'') => ((k, v) :: es, r'')
+end
+
+/-- The whole list is exactly one token tree. -/
+def TV.ofToks (ts : List Tok) : Option TV :=
+  match TV.unflatten (ts.length + 1) ts with
+  | some (v, []) => some v
+  | _ => none
+
+mutual
+  /-- Every declared non-negative length equals the number of entries that follow. -/
+  def TV.lengthsOk : TV → Bool
+    | .scalar _ => true
+    | .arr _ len items => (len < 0 || len == items.length) && TV.lengthsOkList items
+    | .map _ len es => (len < 0 || len == es.length) && TV.lengthsOkEntries es
+  def TV.lengthsOkList : List TV → Bool
+    | [] => true
+    | v :: vs => TV.lengthsOk v && TV.lengthsOkList vs
+  def TV.lengthsOkEntries : List (TV × TV) → Bool
+    | [] => true
+    | (k, v) :: es => TV.lengthsOk k && TV.lengthsOk v && TV.lengthsOkEntries es
 end
 
 end Refmt
